@@ -254,11 +254,15 @@ def fmtOffset (o : Int) : List Char :=
   let a := o.natAbs
   (if o < 0 then '-' else '+') :: (pad2 (a / 3600) ++ ':' :: pad2 (a / 60 % 60))
 
-/-- `value_string(datetime)`: `astimezone().isoformat()`, microseconds cut to milliseconds (no fraction when zero) -/
-def isoFormatWith (o : Int) (t : DT) : List Char :=
+/-- `value_string(datetime)`: `astimezone().isoformat()`, microseconds cut to milliseconds. `us` = the microseconds
+below the millisecond (0 for everything `datetimeNew`/`datetimeISOParse`/`+` produce; `datetimeNow()` and the host can
+supply 1..999): `isoformat()` prints a fraction iff `microsecond ≠ 0`, and the fraction is then cut to 3 digits. -/
+def isoFormatUs (o : Int) (t : DT) (us : Int) : List Char :=
   pad4 t.year.toNat ++ '-' :: (pad2 t.month.toNat ++ '-' :: (pad2 t.day.toNat ++ 'T' :: (pad2 t.hour.toNat ++ ':' ::
     (pad2 t.minute.toNat ++ ':' :: (pad2 t.second.toNat ++
-      ((if t.ms = 0 then [] else '.' :: pad3 t.ms.toNat) ++ fmtOffset o))))))
+      ((if t.ms = 0 ∧ us = 0 then [] else '.' :: pad3 t.ms.toNat) ++ fmtOffset o))))))
+
+def isoFormatWith (o : Int) (t : DT) : List Char := isoFormatUs o t 0
 
 def isoFormat (offL : Int → Int) (t : DT) : List Char := isoFormatWith (offL (toLocalMs t)) t
 
